@@ -171,6 +171,9 @@ class ScheduledTraceEvent(AppTraceEvent):
 
     @property
     def event_data(self):
+        if self.why is None:
+            # Decoded back to why=None (no separator).
+            return '%s' % self.where
         return '%s:%s' % (self.where, self.why)
 
 
